@@ -1,9 +1,23 @@
-From TFL Require Export Harness.Compare Model.Premade.
+From TFL Require Export Harness.Compare Model.PremadeKFL.
 Open Scope Q_scope.
-(* One premade model (tfl.premade.CalibratedLattice with all_vertices
-   parameterization, or tfl.premade.CalibratedLinear) in ONE weight state: every
-   weight extracted from the Keras layers, the feature configuration, a list of
-   input points and the outputs model(x) of the real Keras model (float32). *)
+(* One premade model (tfl.premade.CalibratedLattice with all_vertices or
+   kronecker_factored parameterization, or tfl.premade.CalibratedLinear) in ONE
+   weight state: every weight extracted from the Keras layers, the feature
+   configuration, a list of input points and the outputs model(x) of the real
+   Keras model (float32). *)
+(* the KroneckerFactoredLattice layer of a kronecker_factored model: its
+   hyperparameters as the LAYER holds them (lattice_sizes, monotonicities,
+   output_min/max; units = 1, clip_inputs = False), dims, num_terms, and the three
+   variables: kernel in the implementation layout k[i][j][t] (shape
+   (L, units*dims, terms), leading 1 dropped; converted by MK.unpack), scale, bias *)
+Record kflw := mkKflW {
+  kw_L : nat; kw_monos : option (list bool); kw_min : option Q; kw_max : option Q;
+  kw_dims : nat; kw_terms : nat;
+  kw_k : list (list (list Q)); kw_s : list (list Q); kw_b : list Q }.
+Definition kfl_cfg (w : kflw) : MK.config := MK.mkCfg (kw_L w) (kw_monos w) (kw_min w) (kw_max w) false.
+Definition kfl_par (w : kflw) : MK.params :=
+  MK.mkPar (MK.unpack (kw_L w) 1 (kw_dims w) (kw_terms w) (kw_k w)) (kw_s w) (kw_b w).
+
 Record case := mk {
   c_linear : bool;
   c_sc : scheme; c_sizes : list nat; c_K : list (list Q);   (* lattice part (unused when c_linear) *)
@@ -11,13 +25,15 @@ Record case := mk {
   c_cals : list calib; c_oc : out_calib;
   c_feat : list fmono;                                       (* canonical feature monotonicities *)
   c_lo : option Q; c_hi : option Q;                          (* model output_min / output_max *)
-  c_pts : list (list Q); c_outs : list Q }.
+  c_pts : list (list Q); c_outs : list Q;
+  c_kfl : option kflw }.                                     (* Some: the lattice part is a KFL layer *)
 
 (* float32 model *)
 Definition tol : Q := 1 # 100000.
 Definition model_eval (c : case) (x : list Q) : Q :=
+  match c_kfl c with Some w => cal_kfl_eval (kfl_cfg w) (kfl_par w) (c_cals c) (c_oc c) x | None =>
   if c_linear c then cal_linear_eval (c_k c) (c_b c) (c_cals c) (c_oc c) x
-  else cal_lattice_eval (c_sc c) (c_sizes c) (c_K c) (c_cals c) (c_oc c) x.
+  else cal_lattice_eval (c_sc c) (c_sizes c) (c_K c) (c_cals c) (c_oc c) x end.
 Definition check (c : case) : bool := qlist_close tol (map (model_eval c) (c_pts c)) (c_outs c).
 
 (* ---- second check: the hypotheses of the composition theorems (Props/C03.v:
@@ -73,8 +89,56 @@ Definition oc_ok (lo hi : option Q) (oc : out_calib) : bool :=
   end.
 Definition has_oc (c : case) : bool := match c_oc c with Some _ => true | None => false end.
 
+(* ---- KFL: kfl_feasible (Proofs/PremadeKFL.v) decided on the extracted layer,
+   up to [tol]: per (unit, term) the shape, PK.sgood of the scale, PK.kgood of the
+   weights relative to the sign of the scale (a scale within tol of 0 makes the
+   term irrelevant); the fixed bias of a bounded layer; the layer's
+   monotonicity flags = the features' lattice-dimension flags. ---- *)
+Definition qabs_le (a b : Q) : bool := le_t a b && le_t (- b) a.
+Definition vmaxabs (v : list Q) : Q := fold_right (fun w m => qmax (qabs w) m) 0 v.
+Definition term_ok (w : kflw) (s : Q) (vs : list (list Q)) : bool :=
+  let bounded2 := match kw_min w, kw_max w with Some _, Some _ => true | _, _ => false end in
+  let bounded1 := match kw_min w, kw_max w with Some _, None => true | None, Some _ => true | _, _ => false end in
+  let monos := match MK.canon_monos (kw_monos w) with Some ms => ms | None => [] end in
+  let any_mono := existsb (fun b => b) monos in
+  (length vs =? kw_dims w)%nat && forallb (fun v => (length v =? kw_L w)%nat) vs &&
+  match kw_min w, kw_max w with
+  | Some lo, Some hi => qabs_le s ((hi - lo) * (1#2))
+  | Some _, None => le_t 0 s
+  | None, Some _ => le_t s 0
+  | None, None => true
+  end &&
+  (if any_mono then
+     qabs_le s 0 ||
+     (forallb (forallb (le_t 0)) vs &&
+      forallb (fun mv => if fst mv : bool then adjacent (if Qle_bool 0 s then le_t else fun a b => le_t b a) (snd mv) else true)
+              (combine monos vs))
+   else true) &&
+  (if bounded2 then le_t (fold_right (fun v m => vmaxabs v * m) 1 vs) 1 else true) &&
+  (if bounded1 then forallb (forallb (le_t 0)) vs else true).
+Definition kfl_ok (c : case) (w : kflw) : bool :=
+  let '(lo, hi) := if has_oc c then (Some 0, Some 1) else (c_lo c, c_hi c) in
+  let k := MK.p_kern (kfl_par w) in
+  (* build_lattice_layer hands the layer the model's bounds ([0, 1] under an output calibrator) *)
+  match kw_min w, lo with Some a, Some b => Qeq_bool a b | None, None => true | _, _ => false end &&
+  match kw_max w, hi with Some a, Some b => Qeq_bool a b | None, None => true | _, _ => false end &&
+  (length (c_cals c) =? kw_dims w)%nat && (length (c_feat c) =? kw_dims w)%nat && (2 <=? kw_L w)%nat && (1 <=? kw_dims w)%nat &&
+  zip3_all (fun f cal (_ : nat) => calib_ok (Some 0) (Some (qn (kw_L w) - 1)) f cal) (c_feat c) (c_cals c) (seq 0 (kw_dims w)) &&
+  match kw_monos w with
+  | Some ms => (length ms =? kw_dims w)%nat &&
+               forallb (fun fm => Bool.eqb (snd fm) (lattice_dim_mono (fst fm) =? 1)%Z) (combine (c_feat c) ms)
+  | None => false
+  end &&
+  (length (kw_s w) =? 1)%nat && (length k =? 1)%nat && (length (kw_b w) =? 1)%nat &&
+  forallb (fun su_ku => (length (fst su_ku) =? length (snd su_ku))%nat &&
+                        forallb (fun s_vs => term_ok w (fst s_vs) (snd s_vs)) (combine (fst su_ku) (snd su_ku)))
+          (combine (kw_s w) k) &&
+  (if MK.has_bounds (kfl_cfg w)
+   then forallb (fun b => qabs_le (b - MK.bias_init1 (kw_min w) (kw_max w)) 0) (kw_b w) else true).
+
 Definition check_wiring (c : case) : bool :=
   oc_ok (c_lo c) (c_hi c) (c_oc c) &&
+  match c_kfl c with Some w => kfl_ok c w | None =>
   if c_linear c then
     (* build_linear_layer: weighted average iff bounded or output-calibrated *)
     let wavg := has_oc c || match c_lo c, c_hi c with None, None => false | _, _ => true end in
@@ -92,4 +156,4 @@ Definition check_wiring (c : case) : bool :=
     zip3_all (fun f cal s => calib_ok (Some 0) (Some (qn s - 1)) f cal) (c_feat c) (c_cals c) (c_sizes c) &&
     forallb (in_opt_range lo hi) (column 0 (c_K c)) &&
     forallb (fun d => if (lattice_dim_mono (nth d (c_feat c) (MNum 0)) =? 1)%Z then nondecr_along (c_sizes c) (kern_of c) d else true)
-            (seq 0 (length (c_sizes c))).
+            (seq 0 (length (c_sizes c))) end.
